@@ -422,6 +422,7 @@ func (w *rtWorld) releaseAll() {
 
 type rtCtxs struct {
 	seq    int
+	base   context.Context // the cancellable context under cur (nil for already-done ones)
 	cur    context.Context
 	cancel context.CancelFunc
 	curTag int // 0 = none
@@ -430,10 +431,24 @@ type rtCtxs struct {
 
 func (x *rtCtxs) fresh() (context.Context, int) {
 	x.seq++
-	ctx, cancel := context.WithCancel(context.WithValue(context.Background(), rtKey{}, x.seq))
+	base, cancel := context.WithCancel(context.Background())
+	ctx := context.WithValue(base, rtKey{}, x.seq)
 	x.all = append(x.all, cancel)
+	x.base = base
 	x.cur, x.cancel, x.curTag = ctx, cancel, x.seq
 	return ctx, x.seq
+}
+
+// sibling returns a new context that shares its cancellation (Done channel) with the current one but is a different
+// context (it carries a different value): for the container it is a new context like any other.
+func (x *rtCtxs) sibling() (context.Context, int, bool) {
+	if x.base == nil || x.cur == nil || x.cur.Err() != nil {
+		return nil, 0, false
+	}
+	x.seq++
+	ctx := context.WithValue(x.base, rtKey{}, x.seq)
+	x.cur, x.curTag = ctx, x.seq
+	return ctx, x.seq, true
 }
 
 // freshDone returns a new context that is already done: cancelled (kind 0) or past its deadline (kind 1).
@@ -449,6 +464,7 @@ func (x *rtCtxs) freshDone(kind int) (context.Context, int) {
 		ctx, cancel = context.WithDeadline(base, time.Unix(1, 0))
 	}
 	x.all = append(x.all, cancel)
+	x.base = nil
 	x.cur, x.cancel, x.curTag = ctx, nil, x.seq
 	return ctx, x.seq
 }
@@ -672,6 +688,7 @@ func runC05(w *mon.Worker) {
 	for i := 0; i < w.Share(w.Scale(64, 2000)); i++ {
 		state := i%2 == 0
 		w.Case("retry-swap", map[string]any{"state": state}, func(c *mon.Case) { c05RetrySwapCase(c, state) })
+		w.Case("restart-after-swap", map[string]any{"state": state}, func(c *mon.Case) { c05RestartAfterSwapCase(c, state) })
 	}
 }
 
@@ -751,7 +768,18 @@ func c05Case(c *mon.Case, state, retry, concurrent bool) {
 			}
 			switch k := rr.IntN(10); {
 			case k < 5:
-				ctx, tag := cx.fresh()
+				var ctx context.Context
+				var tag int
+				if rr.IntN(5) == 0 {
+					// a different context with the same cancellation as the one the container has (a sibling carrying another value)
+					if sctx, stag, ok := cx.sibling(); ok {
+						ctx, tag = sctx, stag
+						c.Count("sibling_context_calls", 1)
+					}
+				}
+				if ctx == nil {
+					ctx, tag = cx.fresh()
+				}
 				call, ok := w.setContext(actor, ctx, rr.IntN(2) == 0, fmt.Sprint("new#", tag))
 				if ok {
 					w.checkSuperseded(call, "SetContext(new)")
@@ -1909,4 +1937,53 @@ func c14BackoffStopCase(c *mon.Case, state bool) {
 		c.Violate("machine", "backoff-reset-without-success", "the backoff had given up; RestartRoutine ran the routine once more (it failed again); in total it ran %d times (want 4: the exhausted backoff must not start over) and Reset was called %d time(s) although no run succeeded", n, resets1-resets0)
 	}
 	w.clearContext("d")
+}
+
+// c05RestartAfterSwapCase: the routine has returned (nil or an error) under context A; the container is given context B
+// (restart=false, A stays alive); RestartRoutine then starts the instance under B.
+func c05RestartAfterSwapCase(c *mon.Case, state bool) {
+	r := c.Rng
+	failFirst := r.IntN(2) == 0
+	behave := func(n, gen int) (bool, int, error, bool) {
+		if n == 0 {
+			if failFirst {
+				return false, 0, fmt.Errorf("error-inst-0"), false
+			}
+			return false, 0, nil, false
+		}
+		return true, 0, nil, false
+	}
+	w := newRtWorld(c, state, false, false, behave)
+	cx := &rtCtxs{}
+	defer cx.cancelAll()
+	ctxA, tagA := cx.fresh()
+	w.setContext("d", ctxA, false, fmt.Sprint("new#", tagA))
+	w.setGen("d", 1)
+	if !mon.Quiesce(5 * time.Second) {
+		c.Inconclusive("no quiescence")
+		return
+	}
+	ctxB, tagB := cx.fresh()
+	w.setContext("d", ctxB, false, fmt.Sprint("new#", tagB))
+	w.restart("d")
+	c.Count("restart_after_swap_templates", 1)
+	c.NonTrivial()
+	if !mon.Quiesce(5 * time.Second) {
+		c.Inconclusive("no quiescence after RestartRoutine")
+		return
+	}
+	live := 0
+	for _, in := range w.instances() {
+		if in.exit.Load() == 0 && in.ctx.Err() == nil {
+			live++
+			if in.tag != tagB {
+				c.Violate("survivor", w.kind()+"-survivor-wrong-context", "the first run returned under context #%d; the container was given context #%d (restart=false) and RestartRoutine was called; instance #%d is live under context #%d", tagA, tagB, in.n, in.tag)
+			}
+		}
+	}
+	if live != 1 && !c.Violated() {
+		c.Violate("survivor", w.kind()+"-current-routine-not-running", "after SetContext(#%d) and RestartRoutine %d instances are live, want exactly one under the new context", tagB, live)
+	}
+	call, _ := w.clearContext("d")
+	w.checkSuperseded(call, "ClearContext")
 }
